@@ -360,6 +360,12 @@ func (e *composerEnv) patchJSON(p *CPatch) map[string]interface{} {
 			switch j.Op {
 			case "add", "replace", "test":
 				o["value"] = valJSON(j.Val)
+
+				// a number is the number it denotes, however it is spelled in the patch text (RFC 6902 4.6: equal by value)
+				if j.Val.T == "int" && (j.Op == "test" || j.Path.Name%2 == 0) {
+					o["value"] = json.RawMessage([]string{"%d.0", "%de0", "%d0e-1", "%d.00"}[(j.Val.V+j.Path.Name)%4])
+					o["value"] = json.RawMessage(fmt.Sprintf(string(o["value"].(json.RawMessage)), j.Val.V))
+				}
 			case "move", "copy":
 				o["from"] = pathJSON(j.From)
 			}
